@@ -73,7 +73,8 @@ def png(data):
     except zlib.error:
         raw = b''
         d['crc_ok'] = False
-    stride = (d['width'] * d['depth'] + 7) // 8 if d['depth'] else 0
+    channels = {0: 1, 2: 3, 3: 1, 4: 2, 6: 4}.get(d['ctype'], 1)
+    stride = (d['width'] * d['depth'] * channels + 7) // 8 if d['depth'] else 0
     if stride:
         nrows = len(raw) // (stride + 1)
         d['leftover'] = len(raw) - nrows * (stride + 1)
